@@ -920,6 +920,22 @@ class Interp:
             if h:
                 return h(self, state, obj)
             return BoundMethod(obj, attr)
+        if isinstance(obj, tuple) and len(obj) == 3 and obj[0] == "class" and obj[1] in self.mods:
+            # class attribute (a constant assigned in the class body)
+            tree = self.mods[obj[1]][0]
+            for n in tree.body:
+                if isinstance(n, ast.ClassDef) and n.name == obj[2]:
+                    for b in n.body:
+                        if isinstance(b, (ast.Assign, ast.AnnAssign)):
+                            tg = b.targets[0] if isinstance(b, ast.Assign) else b.target
+                            if isinstance(tg, ast.Name) and tg.id == attr and b.value is not None:
+                                saved = state.env
+                                state.env = {}
+                                try:
+                                    return self.eval(b.value, state, obj[1])
+                                finally:
+                                    state.env = saved
+            return BoundMethod(obj, attr)
         if isinstance(obj, (str, tuple)):
             return BoundMethod(obj, attr)
         raise Unsupported(f"getattr {attr} on {obj!r}")
@@ -1221,7 +1237,10 @@ class Interp:
         # closures run in the verification context of the enclosing function
         fdef = fn.fdef
         saved = st.env
-        env = dict(fn.env)
+        # free variables resolve in the enclosing function's scope *at call time* (a closure sees later assignments of its
+        # defining scope): the caller's current bindings are the fallback for names not captured at definition time
+        env = dict(saved)
+        env.update(fn.env)
         params = [a.arg for a in fdef.args.args]
         if len(args) > len(params):
             raise Unsupported("closure args")
